@@ -25,7 +25,13 @@ mod c03;
 #[cfg(kani)]
 mod c04;
 #[cfg(kani)]
+mod c05;
+#[cfg(kani)]
 mod c06;
+#[cfg(kani)]
+mod c09;
+#[cfg(kani)]
+mod c11;
 #[cfg(kani)]
 mod c13;
 #[cfg(kani)]
